@@ -1250,18 +1250,87 @@ gen(Src& s, int size)
   f["scale_mode"] = mode;
   c["fmt"] = f;
   c["exam"] = gen_exam(s, container);
+  if (!g_no_exclude && container == PAR_INTERFILE && type != T_FLOAT && c["exam"]["frames"].size() >= 2 && !s.chance(1, 4))
+    c["exam"]["frames"].erase(c["exam"]["frames"].begin() + 1, c["exam"]["frames"].end()); // F5
   return c;
 }
 
 // ---- known findings: signatures (computed from the Case; "" when the case is outside every known class) -----------------------------------
+//! the scale factor find_scale_factor (convert_range.inl) arrives at, replicated in the same arithmetic
+float
+predict_scale(const TInfo& t, float setting, const std::vector<float>& v)
+{
+  if (t.id == NumericType::FLOAT)
+    return 1.F;
+  double mx = -DBL_MAX, mn = DBL_MAX;
+  for (float x : v)
+    {
+      mx = std::max(mx, double(x));
+      mn = std::min(mn, double(x));
+    }
+  const double tmax = t.is_int ? double(t.tmax) : DBL_MAX, tmin = t.is_int ? double(t.tmin) : -DBL_MAX;
+  double tmp = mx / tmax;
+  if (t.is_signed)
+    tmp = std::max(tmp, mn / tmin);
+  tmp *= 1.01;
+  float scale = setting;
+  if (scale == 0 || tmp > scale)
+    scale = float(tmp);
+  return scale;
+}
+
 std::string
 known_signature(const json& c)
 {
   if (g_no_exclude)
     return "";
+  // F4: write_interfile_patient_position writes rotation left/right as "other"
   const int rot = c["exam"]["rot"].get<int>();
   if (rot == int(PatientPosition::left) || rot == int(PatientPosition::right))
     return "C10:patient-rotation-left-right-written-as-other";
+  const int container = c["container"].get<int>();
+  const bool multi = container == DYN_MULTI || container == PAR_MULTI;
+  if (multi && c["fmt"].value("multi_default", false))
+    return "";
+  const TInfo& t = TYPES[c["fmt"]["type"].get<int>()];
+  if (t.id == NumericType::FLOAT)
+    return "";
+  const int D = num_datasets(c);
+  const long nv = grid_of(c["grid"]).nvox();
+  std::vector<std::vector<float>> data;
+  for (int d = 0; d < D; ++d)
+    data.push_back(make_values(c["vals"], nv, d));
+  const float setting = scale_setting(c, data);
+  std::vector<float> S;
+  for (int d = 0; d < D; ++d)
+    S.push_back(predict_scale(t, setting, data[std::size_t(d)]));
+  for (int d = 0; d < D; ++d)
+    {
+      bool any_nonzero = false;
+      double max_q = 0;
+      for (float x : data[std::size_t(d)])
+        {
+          if (t.is_int && !t.is_signed && x < 0)
+            continue; // truncated to 0
+          if (x != 0)
+            any_nonzero = true;
+          if (S[std::size_t(d)] != 0)
+            max_q = std::max(max_q, std::fabs(double(x) / double(S[std::size_t(d)])));
+        }
+      // F2: find_scale_factor computes max/DBL_MAX*1.01 for double output and stores it in a float: 0
+      if (t.id == NumericType::DOUBLE && setting == 0.F && any_nonzero)
+        return "C10:double-output-automatic-scale-underflows-to-0";
+      // F3: the scale factor is a float: max|v|/type_max underflows for tiny values and wide types
+      if (t.is_int && any_nonzero && std::fabs(S[std::size_t(d)]) < FLT_MIN)
+        return "C10:scale-factor-below-FLT_MIN";
+      // F1: convert_range rounds with stir::round(), which returns int: quotients beyond INT_MAX overflow (UINT, LONG, ULONG)
+      if (t.is_int && t.bytes >= 4 && max_q + 0.5 >= 2147483520.)
+        return "C10:round-returns-int-overflow-for-32bit-unsigned-and-64bit-types";
+    }
+  // F5: parametric Interfile image whose exam info has >= 2 time frames and identical scale factors != 1:
+  //     'quantification units' is written, the reader then expects frames x parameters identical factors
+  if (container == PAR_INTERFILE && c["exam"]["frames"].size() >= 2 && S[0] == S[1] && S[0] != 1.F)
+    return "C10:parametric-interfile-multiple-time-frames-quantification-units";
   return "";
 }
 
